@@ -531,6 +531,11 @@ def exhaustive_cases(thorough: bool):
                             ["r2", {"args": ["n1", "x"], "e": F2[1], "st": [["x", copy.deepcopy(k2)]]}]]}
         out.append({"content": content, "bad": [], "free": [], "langs": list(LANGS), "states": [["1", ["4"], []]],
                     "decl_seed": len(out), "stratum": "exhaustive-coefficients"})
+    # control-flow bodies on a grid of states (oracle only, Python text)
+    for content in cg.cond_grid_contents():
+        out.append({"content": content, "bad": [], "free": [], "langs": ["py"], "oracle_only": True,
+                    "states": [["0", [str(x)], []] for x in (-2, -1, 0, 1, 2)],
+                    "decl_seed": len(out), "stratum": "exhaustive-conditionals"})
     return out
 
 
